@@ -23,7 +23,7 @@ pub static DEF: PropDef = PropDef {
     level: "exploration",
     total: |t| t.pick(64, 1600),
     run,
-    rule: "record sets of 1..8 names (printable characters other than the space delimiter, 1..60 characters, incl. names that make the query longer than 80 bytes) with arbitrary addresses registered at the authoritative server; 1..10 clients each performing a sequence of lookups (first lookup of a name is cold, repeats must be cache hits), all clients concurrently, with 0..8 ms latency jitter so replies overtake each other; the server is told to serve exactly the number of cold queries. Every return value of DnsClient::get_host_by_name is compared with the record; every DNS frame seen by the H4 hook is decoded: a response must echo the identifier and name of the query sent from the port it goes to; between a successful lookup and the end of the following repeats of the same name by the same client the hook must see no new frame from that client. Non-trivial = >=2 clients, >=2 names and >=1 cache hit; distinct by scenario hash.",
+    rule: "record sets of 1..8 names (any printable ASCII other than the space delimiter, upper and lower case, 1..61 characters, incl. names that make the query longer than 80 bytes; one name in three is a near-duplicate of another record: same letters in another case, one character changed, a proper prefix, an extension, a trailing dot) with arbitrary addresses registered at the authoritative server; 1..10 clients each performing a sequence of lookups (first lookup of a name is cold, repeats must be cache hits), all clients concurrently, with 0..8 ms latency jitter so replies overtake each other; the server is told to serve exactly the number of cold queries. Every return value of DnsClient::get_host_by_name is compared with the record; every DNS frame seen by the H4 hook is decoded: a response must echo the identifier and name of the query sent from the port it goes to; between a successful lookup and the end of the following repeats of the same name by the same client the hook must see no new frame from that client. Non-trivial = >=2 clients, >=2 names and >=1 cache hit; distinct by scenario hash.",
     assumptions: &["only names that have a record are looked up (the statement is about those)", "lookups of one client are sequential; different clients run concurrently"],
     may_exit_process: true,
     watchdog_s: 120,
@@ -52,10 +52,43 @@ fn gen_name(rng: &mut impl Rng) -> String {
             if i > 0 && i % 7 == 6 {
                 '.'
             } else {
-                (b"abcdefghijklmnopqrstuvwxyz0123456789-_~!$"[rng.gen_range(0..41)]) as char
+                // any printable character other than the space delimiter; letters are favoured
+                match rng.gen_range(0..4) {
+                    0 => rng.gen_range(0x21u8..=0x7e) as char,
+                    1 => rng.gen_range(b'A'..=b'Z') as char,
+                    _ => (b"abcdefghijklmnopqrstuvwxyz0123456789-_"[rng.gen_range(0..38)]) as char,
+                }
             }
         })
         .collect()
+}
+
+/// A name that is easily confused with `base`: same letters in another case, one character changed,
+/// a proper prefix, an extension, or a trailing dot. Distinct records must stay distinct at every layer.
+fn near_name(base: &str, rng: &mut impl Rng) -> String {
+    let mut c: Vec<char> = base.chars().collect();
+    match rng.gen_range(0..6) {
+        0 => c.iter().map(|x| x.to_ascii_uppercase()).collect(),
+        1 => c.iter().map(|x| x.to_ascii_lowercase()).collect(),
+        2 => {
+            let i = rng.gen_range(0..c.len());
+            c[i] = if c[i].is_ascii_lowercase() { c[i].to_ascii_uppercase() } else if c[i].is_ascii_uppercase() { c[i].to_ascii_lowercase() } else { 'x' };
+            c.into_iter().collect()
+        }
+        3 => {
+            let n = rng.gen_range(1..=c.len());
+            c.truncate(n);
+            c.into_iter().collect()
+        }
+        4 => {
+            c.push(rng.gen_range(0x21u8..=0x7e) as char);
+            c.into_iter().collect()
+        }
+        _ => {
+            c.push('.');
+            c.into_iter().collect()
+        }
+    }
 }
 
 fn scenario(env: &Env, k: u64, case: u64, rng: &mut rand::rngs::SmallRng, d: &mut Delta) {
@@ -63,7 +96,13 @@ fn scenario(env: &Env, k: u64, case: u64, rng: &mut rand::rngs::SmallRng, d: &mu
     let n_names = rng.gen_range(1..=8usize);
     let mut names: Vec<(String, u32)> = vec![];
     while names.len() < n_names {
-        let nm = gen_name(rng);
+        let nm = if !names.is_empty() && rng.chance(1, 3) {
+            let b = rng.gen_range(0..names.len());
+            let base = names[b].0.clone();
+            near_name(&base, rng)
+        } else {
+            gen_name(rng)
+        };
         if !names.iter().any(|x| x.0 == nm) && nm != "testserver.com" && nm != "google.com" {
             names.push((nm, rng.gen()));
         }
